@@ -2457,6 +2457,21 @@ def _gen_general(rng):
             Z = rng.standard_normal((ne, ne))
             B[nz:, nz:] += Z @ Z.T / ne * 0.05 * wm
     nt = int(rng.integers(3, 16))
+    if rng.random() < 0.12 and n >= 2:
+        # REPEATED, non-defective eigenvalues: two identical (non-proportionally damped) substructures written in
+        # coordinates that mix them; the state matrix has every eigenvalue twice with a full set of eigenvectors
+        q = int(rng.integers(1, 3))
+        X = rng.standard_normal((q, q))
+        m1 = X @ X.T / q + np.eye(q)
+        Y1 = np.linalg.qr(rng.standard_normal((q, q)))[0]
+        k1 = Y1 @ np.diag((rng.uniform(0.5, 3.0, q) / h / 6) ** 2) @ Y1.T
+        Z = rng.standard_normal((q, q))
+        b1 = Z @ Z.T / q * 0.1 * float(np.sqrt(np.diag(k1).mean()))
+        T = np.linalg.qr(rng.standard_normal((2 * q, 2 * q)))[0] if rng.random() < 0.7 else \
+            np.kron(np.array([[1.0, 1.0], [1.0, -1.0]]), np.eye(q))
+        blk = lambda a: T.T @ np.kron(np.eye(2), a) @ T
+        M, B, K = blk(m1), blk(b1), blk(k1)
+        n, nz, style = 2 * q, 0, "repeated-eigenvalues"
     F = rng.standard_normal((n, nt)) * 10 ** rng.uniform(-1, 1)
     return {"kind": "general", "n": n, "h": h, "order": int(rng.integers(0, 2)), "style": style, "nz": nz,
             "M": M.tolist(), "B": B.tolist(), "K": K.tolist(), "F": F.tolist(),
